@@ -210,6 +210,45 @@ pub fn run(ctx: &Ctx) -> Report {
         ops.push("D".into());
         big_cases.push(Case { op: "tcp".into(), data: vec![], args: vec![], text: ops });
     }
+    // long streams (~450 KB, 250 frames with lengths from every size class) pushed in fixed-size
+    // chunks under four pull policies: thresholds of an implementation (lazy compaction, capacity
+    // shrinking, cursor wrap) are crossed with data still buffered
+    {
+        let classes: [usize; 14] = [0, 1, 2, 255, 256, 257, 1000, 1459, 1460, 1461, 4095, 4096, 9000, 40000];
+        let mut frames: Vec<Vec<u8>> = Vec::new();
+        let mut x: u32 = 12345;
+        for i in 0..250usize {
+            x = x.wrapping_mul(1_103_515_245).wrapping_add(12345);
+            let l = classes[(x >> 16) as usize % if i % 10 == 9 { 14 } else { 12 }];
+            frames.push((0..l).map(|j| (j as u8).wrapping_mul(7).wrapping_add(i as u8)).collect());
+        }
+        let stream = frames_to_stream(&frames);
+        for chunk in [3usize, 97, 1460, 4096, 16_384, 65_536, 100_000] {
+            if chunk < 97 && stream.len() > 60_000 {
+                // tiny chunks only over a prefix of the stream (the operation list would be huge)
+            }
+            let limit = if chunk < 97 { 40_000.min(stream.len()) } else { stream.len() };
+            for policy in 0..4u8 {
+                let mut ops: Vec<String> = Vec::new();
+                let mut n = 0usize;
+                let mut off = 0usize;
+                while off < limit {
+                    let end = (off + chunk).min(limit);
+                    ops.push(format!("P:{}", crate::refimpl::crypto::hex(&stream[off..end])));
+                    off = end;
+                    n += 1;
+                    match policy {
+                        0 => ops.push("D".into()),
+                        1 => ops.push("L".into()),
+                        2 if n % 3 == 0 => ops.push("D".into()),
+                        _ => {}
+                    }
+                }
+                ops.push("D".into());
+                big_cases.push(Case { op: "tcp".into(), data: vec![], args: vec![chunk as i64, policy as i64], text: ops });
+            }
+        }
+    }
     let n_big = big_cases.len() as u64;
     let mut acc2 = crate::props::sweep(big_cases.into_par_iter(), judge);
     acc2.nontrivial += n_big;
@@ -217,7 +256,7 @@ pub fn run(ctx: &Ctx) -> Report {
     Report {
         acc,
         exhaustive: true,
-        rule: format!("all sequences of <= 3 frames with lengths from {{0,1,2,3,5}} (distinct counter contents) whose stream is <= {max_stream} bytes x every chunking (all 2^(n-1) split patterns) x pull schedules (per-chunk choice of none / one pull / pull until None then once more: exhaustive up to 5 chunks, 5 patterns above); plus frames of 65535, 65534, 256, 255, 0 bytes split around the length prefix and the frame end; evaluations = push/pull calls, distinct_nontrivial = operation sequences"),
+        rule: format!("all sequences of <= 3 frames with lengths from {{0,1,2,3,5}} (distinct counter contents) whose stream is <= {max_stream} bytes x every chunking (all 2^(n-1) split patterns) x pull schedules (per-chunk choice of none / one pull / pull until None then once more: exhaustive up to 5 chunks, 5 patterns above); plus frames of 65535, 65534, 256, 255, 0 bytes split around the length prefix and the frame end; a ~450 KB stream of 250 frames (lengths from 14 size classes, 0..40000) pushed in chunks of 3 / 97 / 1460 / 4096 / 16384 / 65536 / 100000 bytes under 4 pull policies; evaluations = push/pull calls, distinct_nontrivial = operation sequences"),
         bounds: json!({"frame_sequences": n_streams, "max_stream_bytes": max_stream, "dedup": "none (TcpBuffer's Debug hides its contents)"}),
         assumptions: vec![],
         ..Default::default()
